@@ -1559,13 +1559,38 @@ def _check_candidate_paths(res: Result, fi: FuncInfo) -> None:
                 n.value, (ast.Subscript, ast.Name, ast.ListComp, ast.SetComp)):
             single[n.targets[0].id] = n.value
 
+    # names bound by unpacking the covered neighbours: `a, *b = covered`
+    derived: dict[str, str] = {}
+    for n in ast.walk(fn):
+        if isinstance(n, ast.Assign) and len(n.targets) == 1 and isinstance(
+                n.targets[0], ast.Tuple) and len(n.targets[0].elts) == 2:
+            a0, b0 = n.targets[0].elts
+            if isinstance(a0, ast.Name) and isinstance(b0, ast.Starred) and \
+                    isinstance(b0.value, ast.Name) and counts.get(
+                    a0.id) == 1 and counts.get(b0.value.id) == 1:
+                derived[a0.id] = ("unpack-first", n.value)
+                derived[b0.value.id] = ("unpack-rest", n.value)
+
     def covered_kind(e) -> str | None:
         """'all' | 'first' | 'rest' when e denotes the covered neighbours of
         u / the first of them / the others."""
+        if isinstance(e, ast.Name) and e.id in derived:
+            which, src = derived[e.id]
+            base = covered_kind(src)
+            if base in ("all", "H:all"):
+                pre = "H:" if base.startswith("H:") else ""
+                return pre + which.split("-")[1]
+            return None
         if isinstance(e, ast.Name) and e.id in single:
             return covered_kind(single[e.id])
         if isinstance(e, (ast.ListComp, ast.SetComp, ast.GeneratorExp)):
             t = _alpha(e)
+            # the neighbourhoods (in g2) of the images of the covered
+            # neighbours, as a list: kinds carry the prefix "H:"
+            if isinstance(e, ast.ListComp) and t == \
+                    f"[g2_nbrhd[mapping[_v0]]for_v0ing1_nbrhd[{u}]" \
+                    "if_v0inmapping]":
+                return "H:all"
             if t in (f"[_v0for_v0ing1_nbrhd[{u}]if_v0inmapping]",
                      f"{{_v0for_v0ing1_nbrhd[{u}]if_v0inmapping}}",
                      f"(_v0for_v0ing1_nbrhd[{u}]if_v0inmapping)"):
@@ -1582,16 +1607,21 @@ def _check_candidate_paths(res: Result, fi: FuncInfo) -> None:
                 return "some"
         if isinstance(e, ast.Subscript):
             base = covered_kind(e.value)
-            if base == "all":
+            pre = "H:" if base and base.startswith("H:") else ""
+            if base in ("all", "H:all"):
                 sl = norm(e.slice)
                 if sl == "0":
-                    return "first"
+                    return pre + "first"
                 if sl == "1:":
-                    return "rest"
+                    return pre + "rest"
                 if not isinstance(e.slice, ast.Slice):
-                    return "some"           # one unspecified element
-                return "deviant-slice"
-            return base if base and base.startswith("deviant") else None
+                    return pre + "some"           # one unspecified element
+                return pre + "deviant-slice"
+            if base in ("rest", "H:rest", "first", "H:first", "some",
+                        "H:some"):
+                # a part of a part
+                return pre + "deviant-slice"
+            return base if base and "deviant" in base else None
         return None
 
     def classify(e, loopvars) -> str:
@@ -1604,6 +1634,13 @@ def _check_candidate_paths(res: Result, fi: FuncInfo) -> None:
             return "EXT"
         if t == "inverted_mapping":
             return "USED"
+        if isinstance(e, ast.Name) and str(loopvars.get(e.id, "")
+                                           ).startswith("H:"):
+            return "NBR:" + loopvars[e.id][2:]
+        hk = covered_kind(e)
+        if hk and hk.startswith("H:") and hk != "H:all" and \
+                "rest" not in hk:
+            return "NBR:" + hk[2:]
         if isinstance(e, ast.Name) and e.id in single:
             return classify(single[e.id], loopvars)
         m = re.fullmatch(r"g2_nbrhd\[mapping\[(.+)\]\]", t)
@@ -1714,7 +1751,7 @@ def _check_candidate_paths(res: Result, fi: FuncInfo) -> None:
         for t, pol in guards:
             tt = t
             for name, val in single.items():
-                if covered_kind(val) == "all":
+                if covered_kind(val) in ("all", "H:all"):
                     tt = re.sub(rf"\b{name}\b", "COVERED", tt)
             if tt in ("not COVERED", "len(COVERED) == 0"):
                 none_covered = pol
@@ -1848,6 +1885,43 @@ def check_feasibility(prog: Program, res: Result) -> None:
                         "contains the None placeholder (None is never a key "
                         "of the mapping), so descriptors with a lone pair "
                         "are never compared")
+        # translation through `<mapping>.get` with a None test on the
+        # result as the coverage criterion (possibly inside a helper the
+        # predicate calls): `t = tuple(map(m.get, s.atoms)); if None in t`
+        scopes = [fi]
+        for c in ast.walk(fi.node):
+            if isinstance(c, ast.Call) and isinstance(c.func, ast.Name):
+                h = prog.functions.get(f"{fi.module.name}:{c.func.id}")
+                if h is not None and h not in scopes:
+                    scopes.append(h)
+        for sc in scopes:
+            got: dict[str, ast.AST] = {}
+            for a in ast.walk(sc.node):
+                if not (isinstance(a, ast.Assign) and len(a.targets) == 1
+                        and isinstance(a.targets[0], ast.Name)):
+                    continue
+                t = norm(a.value)
+                if re.search(r"map\((\w+\.)*\w+\.get, (\w+\.)*atoms\)", t) or \
+                        re.search(r"\.get\((\w+)\) for \1 in (\w+\.)*atoms\b",
+                                  t):
+                    got[a.targets[0].id] = a
+            for c in ast.walk(sc.node):
+                if isinstance(c, ast.Compare) and len(c.ops) == 1 and \
+                        isinstance(c.ops[0], (ast.In, ast.NotIn)) and \
+                        isinstance(c.left, ast.Constant) and \
+                        c.left.value is None and isinstance(
+                        c.comparators[0], ast.Name) and \
+                        c.comparators[0].id in got:
+                    n_f += 3
+                    src = got[c.comparators[0].id]
+                    inst = f"{fi.short}: coverage test `{norm(c)}`"
+                    res.bad("R-NULL-FEAS", inst, sc.loc(c),
+                            f"{fi.short} (through {sc.short}): `{norm(src, 80)}`"
+                            " maps the None placeholder to None like an atom "
+                            f"that is not mapped yet, and `{norm(c)}` then "
+                            "treats every descriptor with a lone pair as not "
+                            "covered: it is skipped on this side only",
+                            context=["<decided>"])
         if n_f < 3:
             res.error(f"R-NULL-FEAS {fname}: only {n_f} descriptor-atom "
                       "comprehensions recognised")
